@@ -996,7 +996,7 @@ func (c *compiler) evalCallExpression(node *ast.CallExpression) (interface{}, er
 		return nil, fmt.Errorf("could not call %s function: %w", node.Function, err)
 	}
 	if len(res) > 0 {
-		if e, ok := res[len(res)-1].Interface().(error); ok {
+		if e, ok := res[len(res)-1].Interface().(error); ok && !isNilResult(res[len(res)-1]) {
 			return nil, fmt.Errorf("could not call %s function: %w", node.Function, e)
 		}
 		if node.ChainCallee != nil {
@@ -1023,6 +1023,18 @@ func (c *compiler) evalCallExpression(node *ast.CallExpression) (interface{}, er
 	}
 
 	return nil, nil
+}
+
+// isNilResult reports whether a result of a called function is a nil pointer
+// (map, slice, func, channel): a function declared to return a concrete error
+// type, func() (string, *MyErr), reports success with a nil *MyErr, which is a
+// non-nil error once reflect has boxed it.
+func isNilResult(v reflect.Value) bool {
+	switch v.Kind() {
+	case reflect.Ptr, reflect.Map, reflect.Slice, reflect.Func, reflect.Chan, reflect.Interface:
+		return v.IsNil()
+	}
+	return false
 }
 
 // safeCall calls fn and turns a panic of the called function (or of the call
